@@ -29,6 +29,9 @@ def scratch_copy():
 
 def run_check(pid, repo_dir, seed='1', extra=()):
     env = dict(os.environ, VERIF_REPO=repo_dir, VERIF_SEED=str(seed), VERIF_NO_SHRINK='1')
+    prop = os.path.join(VERIF, 'findings_proposed', pid.lower() + '.json')
+    if os.path.exists(prop) and 'VERIF_KNOWN_EXTRA' not in env:
+        env['VERIF_KNOWN_EXTRA'] = prop
     t0 = time.time()
     p = subprocess.run([os.path.join(VERIF, 'check'), pid, '--no-evidence', *extra], cwd=VERIF, env=env,
                        stdout=subprocess.PIPE, stderr=subprocess.STDOUT, text=True)
